@@ -144,6 +144,7 @@ class Polyline3D(Base2DIn3D):
         new_vertices.append(self[-1])  # last vertex is always ok
         _new_poly = Polyline3D(new_vertices)
         self._transfer_properties(_new_poly)
+        _new_poly._length = None  # dropping nearly colinear vertices changes the length
         return _new_poly
 
     def reverse(self):
